@@ -343,6 +343,9 @@ func runProtocol(kc *kernelCtx, blocks []*Block, only string, want map[string]bo
 		if on("C08") {
 			pc.p5Sync(s)
 		}
+		if on("C04") || on("C09") || onPlug {
+			pc.p12AtomicValue(s)
+		}
 		if on("C13") || on("C05") || on("C16") {
 			pc.p7Lockset(s, on("C13"), on("C05") || on("C16"))
 		}
@@ -675,6 +678,58 @@ func (oc *originCalc) ofCallResult(v ssa.Value, idx int) originSet {
 // ofLoad: origins of the values stored in the cell addr points to.
 func (oc *originCalc) ofLoad(addr ssa.Value) originSet {
 	s := oc.s
+	// a pointer read back from an atomic.Value / atomic.Pointer cell (contexts stored by address): the cells whose
+	// addresses were stored into it
+	{
+		cur := addr
+		for i := 0; i < 4; i++ {
+			switch t := cur.(type) {
+			case *ssa.TypeAssert:
+				cur = t.X
+				continue
+			case *ssa.ChangeInterface:
+				cur = t.X
+				continue
+			case *ssa.Extract:
+				cur = t.Tuple
+				continue
+			}
+			break
+		}
+		if c, ok := cur.(*ssa.Call); ok {
+			if f := c.Common().StaticCallee(); f != nil && pkgPathOf(f) == "sync/atomic" && f.Signature.Recv() != nil && f.Name() == "Load" && len(c.Common().Args) == 1 {
+				if al, ok := s.root(c.Common().Args[0]).(*ssa.Alloc); ok {
+					o := originSet{}
+					found := false
+					for fn := range s.InTree {
+						for _, b := range fn.Blocks {
+							for _, ins := range b.Instrs {
+								c2, ok := ins.(*ssa.Call)
+								if !ok {
+									continue
+								}
+								f2 := c2.Common().StaticCallee()
+								if f2 == nil || pkgPathOf(f2) != "sync/atomic" || f2.Name() != "Store" || len(c2.Common().Args) != 2 || s.root(c2.Common().Args[0]) != ssa.Value(al) {
+									continue
+								}
+								stored := c2.Common().Args[1]
+								if mi, ok := stored.(*ssa.MakeInterface); ok {
+									stored = mi.X
+								}
+								if _, isPtr := stored.Type().Underlying().(*types.Pointer); isPtr {
+									o.union(oc.ofLoad(stored))
+									found = true
+								}
+							}
+						}
+					}
+					if found {
+						return o
+					}
+				}
+			}
+		}
+	}
 	switch a := addr.(type) {
 	case *ssa.FieldAddr:
 		// field of a struct held in a slice element
